@@ -32,13 +32,14 @@ Theorem C07_process_every_job_one_home :
       \/ (count_occ Z.eq_dec (concat (h_routes (p_sol st'))) j = 0 /\ count_occ Z.eq_dec (reported_unassigned (p_sol st')) j = 1).
 Proof. exact process_partition. Qed.
 
-(* -- "before construction": the quota is already true at the first poll: no insertion, routes untouched, everything pending
+(* -- "before construction": the quota is already true at the first poll: no insertion, routes untouched (only job-less routes are
+      dropped by finalize_insertion_ctx), everything pending
       (and what was unassigned) is reported unassigned *)
 Theorem C07_process_quota_before_first_insertion :
   forall (ev : nat -> hsol -> eres) (q : quota) (st : pstate),
     q (p_polls st) = true ->
     exists st', process ev q st = Some st'
-                /\ h_routes (p_sol st') = h_routes (p_sol st)
+                /\ h_routes (p_sol st') = h_routes (step (p_sol st) HDropEmpty)
                 /\ p_ins st' = p_ins st
                 /\ p_polls st' <= S (p_polls st)
                 /\ h_required (p_sol st') = []
